@@ -141,7 +141,10 @@ def case_strategy():
     body = st.builds(lambda a, k, ws: [{"k": "tag", "name": "body", "ws": ws, "attrs": a, "kids": k}], ATTRS, st.lists(node(2), max_size=3), st.sampled_from([True, True, False]))
     html = html_root().map(lambda h: [h])
     body_plus = st.builds(lambda b, f: b + f, body, st.lists(node(1), min_size=1, max_size=2))  # not a *lone* body: gets wrapped
-    content = st.one_of(frag, frag, body, body_plus, html, html)
+    # a top-level <head> / <html> among other content is ordinary content of the new <body>
+    stray = st.builds(lambda nm, a, k: {"k": "tag", "name": nm, "ws": True, "attrs": a, "kids": k}, st.sampled_from(["head", "head", "html", "body"]), ATTRS, st.lists(node(1), max_size=2))
+    head_plus = st.builds(lambda hd, f, at: f[:at] + [hd] + f[at:], stray, st.lists(node(1), min_size=1, max_size=3), st.integers(0, 3))
+    content = st.one_of(frag, frag, body, body_plus, html, html, head_plus)
     return st.fixed_dictionaries(
         {
             "content": content,
@@ -324,6 +327,7 @@ def _assemble_body(case, note):
         "inline-body" if shape == "body" and not case["content"][0]["ws"] else "",
         "body-plus-more" if len(case["content"]) > 1 and case["content"][0]["k"] == "tag" and case["content"][0]["name"] == "body" else "",
         "json-render-mode" if case.get("mode") == "json" and res else "",
+        "top-level-head-among-other-content" if shape == "fragment" and any(n["k"] == "tag" and n["name"] == "head" for n in case["content"]) else "",
         "falsy-but-present-html-attribute" if any(v is not None and v is not False and not v for _, v in case["kw"]) else "",
         "user-head-with-own-meta/link/script" if user_head and any(k["k"] == "tag" and k["name"] in ("meta", "base", "link", "script") for k in _user_head_kids(case["content"])) else "",
     )
@@ -472,7 +476,7 @@ CLAUSES = [
         quick=700,
         thorough=10000,
         shards_quick=4,
-        required=("shape:html", "shape:body", "shape:fragment", "later-content", "user-head-with-dep", "kw-collides", "version-collision", "headc", "no-deps", "head-after-body", "body-plus-more", "rendered-again-after-change", "inline-body", "json-render-mode", "user-head-with-own-meta/link/script", "falsy-but-present-html-attribute"),
+        required=("shape:html", "shape:body", "shape:fragment", "later-content", "user-head-with-dep", "kw-collides", "version-collision", "headc", "no-deps", "head-after-body", "body-plus-more", "rendered-again-after-change", "inline-body", "json-render-mode", "user-head-with-own-meta/link/script", "falsy-but-present-html-attribute", "top-level-head-among-other-content"),
         rule="see RULE",
     ),
 ]
